@@ -118,4 +118,159 @@ theorem latin1_roundtrip : latin1.Roundtrip := by
   · rename_i hs; cases h; simp [hs]
   · cases h
 
+
+/-! ### UTF-8 and UTF-16: the strict decoders invert the strict encoders (every string without lone surrogates) -/
+
+theorem utf8Char_dec {c : Nat} {a : Bytes} (h : utf8Char c = some a) (rest : Bytes) (f : Nat) :
+    utf8DecF (f + 1) (a ++ rest) = consOpt c (utf8DecF f rest) := by
+  unfold utf8Char at h
+  split at h
+  · next h1 =>
+    cases h
+    simp [utf8DecF, h1]
+  · next h1 =>
+    split at h
+    · next h2 =>
+      cases h
+      have e1 : ¬ (0xC0 + c / 64 < 0x80) := by omega
+      have e2 : ¬ (0xC0 + c / 64 < 0xC0) := by omega
+      have e3 : 0xC0 + c / 64 < 0xE0 := by omega
+      have e4 : (0xC0 + c / 64 - 0xC0) * 64 + (0x80 + c % 64 - 0x80) = c := by omega
+      have e5 : isCont (0x80 + c % 64) = true := by simp [isCont]; omega
+      simp only [List.cons_append, List.nil_append, utf8DecF, e1, e2, e3, e4, e5, if_true, if_false, Bool.true_and]
+      have : decide (0x80 ≤ c) = true := by simp; omega
+      simp [this]
+    · next h2 =>
+      split at h
+      · next h3 =>
+        split at h
+        · cases h
+        · next h4 =>
+          cases h
+          have e1 : ¬ (0xE0 + c / 4096 < 0x80) := by omega
+          have e2 : ¬ (0xE0 + c / 4096 < 0xC0) := by omega
+          have e3 : ¬ (0xE0 + c / 4096 < 0xE0) := by omega
+          have e3' : 0xE0 + c / 4096 < 0xF0 := by omega
+          have e4 : (0xE0 + c / 4096 - 0xE0) * 4096 + (0x80 + c / 64 % 64 - 0x80) * 64 + (0x80 + c % 64 - 0x80) = c := by omega
+          have e5 : isCont (0x80 + c % 64) = true := by simp [isCont]; omega
+          have e6 : isCont (0x80 + c / 64 % 64) = true := by simp [isCont]; omega
+          have e7 : decide (0x800 ≤ c) = true := by simp; omega
+          have e8 : isSurrogate c = false := by simpa using h4
+          simp only [List.cons_append, List.nil_append, utf8DecF, e1, e2, e3, e3', e4, e5, e6, e7, e8, if_true, if_false,
+            Bool.true_and, Bool.not_false, Bool.and_self]
+      · next h3 =>
+        split at h
+        · next h4 =>
+          cases h
+          have e1 : ¬ (0xF0 + c / 262144 < 0x80) := by omega
+          have e2 : ¬ (0xF0 + c / 262144 < 0xC0) := by omega
+          have e3 : ¬ (0xF0 + c / 262144 < 0xE0) := by omega
+          have e3' : ¬ (0xF0 + c / 262144 < 0xF0) := by omega
+          have e3'' : 0xF0 + c / 262144 < 0xF8 := by omega
+          have e4 : (0xF0 + c / 262144 - 0xF0) * 262144 + (0x80 + c / 4096 % 64 - 0x80) * 4096 + (0x80 + c / 64 % 64 - 0x80) * 64
+              + (0x80 + c % 64 - 0x80) = c := by omega
+          have e5 : isCont (0x80 + c % 64) = true := by simp [isCont]; omega
+          have e6 : isCont (0x80 + c / 64 % 64) = true := by simp [isCont]; omega
+          have e6' : isCont (0x80 + c / 4096 % 64) = true := by simp [isCont]; omega
+          have e7 : decide (0x10000 ≤ c) = true := by simp; omega
+          have e8 : decide (c < 0x110000) = true := by simp; omega
+          simp only [List.cons_append, List.nil_append, utf8DecF, e1, e2, e3, e3', e3'', e4, e5, e6, e6', e7, e8, if_true, if_false,
+            Bool.true_and, Bool.and_self]
+        · cases h
+
+theorem utf8Char_len {c : Nat} {a : Bytes} (h : utf8Char c = some a) : 1 ≤ a.length := by
+  unfold utf8Char at h
+  repeat' split at h
+  all_goals first | (cases h; simp) | cases h
+
+theorem utf8_dec_enc (s : Str) : ∀ b, encodeWith utf8Char s = some b → ∀ f, b.length ≤ f → utf8DecF f b = some s := by
+  induction s with
+  | nil => intro b h f _; simp [encodeWith] at h; subst h; cases f <;> simp [utf8DecF]
+  | cons c r ih =>
+    intro b h f hf
+    simp only [encodeWith] at h
+    split at h
+    · next a b' ha hb' =>
+      cases h
+      have hl := utf8Char_len ha
+      cases f with
+      | zero => rw [List.length_append] at hf; omega
+      | succ f' =>
+        rw [utf8Char_dec ha, ih b' hb' f' (by rw [List.length_append] at hf; omega)]
+        rfl
+    · cases h
+
+theorem utf8_roundtrip : utf8.Roundtrip := by
+  intro s b h
+  exact utf8_dec_enc s b h _ (Nat.le_refl _)
+
+theorem utf16Char_dec {c : Nat} {a : Bytes} (h : utf16Char c = some a) (rest : Bytes) (f : Nat) :
+    utf16UnitsF (f + 1) (a ++ rest) = consOpt c (utf16UnitsF f rest) := by
+  unfold utf16Char at h
+  split at h
+  · next h1 =>
+    split at h
+    · cases h
+    · next h2 =>
+      cases h
+      have hs : ¬ (0xD800 ≤ c ∧ c ≤ 0xDFFF) := by simpa [isSurrogate] using h2
+      have e1 : ¬ (256 ≤ c % 256) := by omega
+      have e2 : ¬ (256 ≤ c / 256) := by omega
+      have e3 : c % 256 + 256 * (c / 256) = c := by omega
+      have e4 : (c < 0xD800 ∨ 0xE000 ≤ c) := by omega
+      simp only [List.cons_append, List.nil_append, utf16UnitsF, e1, e2, e3, decide_false, Bool.or_self, Bool.false_eq_true, if_false]
+      simp [e4]
+  · next h1 =>
+    split at h
+    · next h2 =>
+      simp only [Option.some.injEq] at h
+      subst h
+      have e1 : ¬ (256 ≤ (0xD800 + (c - 0x10000) / 1024) % 256) := by omega
+      have e2 : ¬ (256 ≤ (0xD800 + (c - 0x10000) / 1024) / 256) := by omega
+      have e1' : ¬ (256 ≤ (0xDC00 + (c - 0x10000) % 1024) % 256) := by omega
+      have e2' : ¬ (256 ≤ (0xDC00 + (c - 0x10000) % 1024) / 256) := by omega
+      have e3 : (0xD800 + (c - 0x10000) / 1024) % 256 + 256 * ((0xD800 + (c - 0x10000) / 1024) / 256) = 0xD800 + (c - 0x10000) / 1024 := by omega
+      have e3' : (0xDC00 + (c - 0x10000) % 1024) % 256 + 256 * ((0xDC00 + (c - 0x10000) % 1024) / 256) = 0xDC00 + (c - 0x10000) % 1024 := by omega
+      have e4 : ¬ (0xD800 + (c - 0x10000) / 1024 < 0xD800 ∨ 0xE000 ≤ 0xD800 + (c - 0x10000) / 1024) := by omega
+      have e5 : 0xD800 + (c - 0x10000) / 1024 < 0xDC00 := by omega
+      have e6 : 0xDC00 ≤ 0xDC00 + (c - 0x10000) % 1024 ∧ 0xDC00 + (c - 0x10000) % 1024 < 0xE000 := by omega
+      have e7 : 0x10000 + (0xD800 + (c - 0x10000) / 1024 - 0xD800) * 1024 + (0xDC00 + (c - 0x10000) % 1024 - 0xDC00) = c := by omega
+      simp only [List.cons_append, List.nil_append, utf16UnitsF, e1, e2, e1', e2', e3, e3', decide_false, Bool.or_self,
+        Bool.false_eq_true, if_false]
+      simp [e4, e5, e6]
+      have e8 : ∀ v : Nat, v / 1024 * 1024 + v % 1024 = v := by intro v; omega
+      rw [Nat.add_assoc, e8]
+      have e9 : 65536 + (c - 65536) = c := by omega
+      rw [e9]
+    · cases h
+
+theorem utf16Char_len {c : Nat} {a : Bytes} (h : utf16Char c = some a) : 1 ≤ a.length := by
+  unfold utf16Char at h
+  repeat' split at h
+  all_goals first | (cases h; simp) | cases h
+
+theorem utf16_dec_enc (s : Str) : ∀ b, encodeWith utf16Char s = some b → ∀ f, b.length ≤ f → utf16UnitsF f b = some s := by
+  induction s with
+  | nil => intro b h f _; simp [encodeWith] at h; subst h; cases f <;> simp [utf16UnitsF]
+  | cons c r ih =>
+    intro b h f hf
+    simp only [encodeWith] at h
+    split at h
+    · next a b' ha hb' =>
+      cases h
+      have hl := utf16Char_len ha
+      cases f with
+      | zero => rw [List.length_append] at hf; omega
+      | succ f' =>
+        rw [utf16Char_dec ha, ih b' hb' f' (by rw [List.length_append] at hf; omega)]
+        rfl
+    · cases h
+
+theorem utf16_roundtrip : utf16.Roundtrip := by
+  intro s b h
+  simp only [utf16, utf16Enc, Option.map_eq_some_iff] at h
+  obtain ⟨u, hu, rfl⟩ := h
+  simp only [utf16, utf16Dec, List.cons_append, List.nil_append]
+  exact utf16_dec_enc s u hu _ (Nat.le_refl _)
+
 end Uberjob.TextCodec
